@@ -75,7 +75,7 @@ namespace RecInt
         limb *tab[NBLIMB<K>::value];
         pointers_list(tab, c); // TODO A virer - faire iterator non reverse
 
-        a = 1;
+        a = (n == 1u) ? 0u : 1u;
         for (i = 0; i < NBLIMB<K>::value; i++) {
             for (j = 1; j != 0; j <<= 1) {
                 if (*(tab[i]) & j) {
@@ -97,7 +97,7 @@ namespace RecInt
         ruint<K> x(b);
         T j;
 
-        a = 1;
+        a = (n == 1u) ? 0u : 1u;
         for (j = 1; j != 0; j <<= 1) {
             if (c & j) {
                 // a = a * x mod n
